@@ -55,6 +55,20 @@ def loop_ordinals(fn: ast.AST) -> dict[int, int]:
     return out
 
 
+def is_lemma_instance(text: str) -> bool:
+    n = ast.parse('(' + text.strip() + '\n)', mode='eval').body
+    while True:
+        if isinstance(n, ast.Call) and isinstance(n.func, ast.Name):
+            if n.func.id == 'forall' and isinstance(n.args[0], ast.Lambda):
+                n = n.args[0].body
+                continue
+            if n.func.id == 'implies':
+                n = n.args[1]
+                continue
+            return n.func.id.startswith('lemma_')
+        return False
+
+
 class Path(PathRun):
     target_qual = ''
 
@@ -67,7 +81,42 @@ class Path(PathRun):
         m = getattr(self, 's_' + type(s).__name__, None)
         if m is None:
             raise Unsupported('statement ' + type(s).__name__)
+        self.apply_hints(s)
         m(s)
+
+    def apply_hints(self, s: ast.stmt) -> None:
+        """Ghost assertions of the sidecar contract, keyed by the source
+        text of the statement they precede: each is proved here (an
+        obligation), then available to the rest of the path."""
+        if self.spec_mode or not self.frames:
+            return
+        c = self.p.contracts.get(self.frames[-1].func)
+        if c is None or not c.hints:
+            return
+        try:
+            src = ast.unparse(s)
+        except Exception:
+            return
+        for key, hs in c.hints.items():
+            if src.startswith(key):
+                saved = self.old, self.entry_locs
+                if self.entry_snap is not None and len(self.frames) == 1:
+                    self.old = self.entry_snap
+                try:
+                    for h in hs:
+                        self.spec_mode += 1
+                        try:
+                            cnd = self.spec(h)
+                        finally:
+                            self.spec_mode -= 1
+                        if is_lemma_instance(h):
+                            # an instance of a lemma proved in the prelude
+                            # (under forall / implies): valid, so assumed
+                            self.st.assume(cnd)
+                        else:
+                            self.oblige(cnd, 'hint', s, h)
+                finally:
+                    self.old, self.entry_locs = saved
 
     def s_Expr(self, s: ast.Expr) -> None:
         if isinstance(s.value, ast.Constant):
